@@ -288,7 +288,7 @@ def run(res: Results, idx: Index, tier: str) -> None:
     res.rule("R-C13a", "host-state mutations in context managers / save-restore functions are inside the restoring try (or the single statement right before it); yield inside; LIFO restore", floor=10)
     res.rule("R-C13b", "writes to third-party namespaces are paired in the same function or happen only at `import jax2onnx` time", floor=5)
     res.rule("R-C13c", "package context managers are entered only via `with` / ExitStack.enter_context", floor=8)
-    res.rule("R-C13d", "x64 flag updates and re-entrancy ContextVar sets outside `finally` are followed by a restoring finally", floor=3)
+    res.rule("R-C13d", "x64 flag switches are scoped (JAX context manager or update + restoring finally); re-entrancy ContextVar sets outside `finally` are followed by a restoring finally", floor=3)
     res.assumptions += ["objects named self/cls/ctx/owner/*builder/*scope are converter-owned, not host state",
                         "third-party = import root in " + ", ".join(sorted(HOST_ROOTS)),
                         "jit trace-cache pollution and mutation of user modules by library code are not decided"]
@@ -440,6 +440,24 @@ def run(res: Results, idx: Index, tier: str) -> None:
                 else:
                     res.violation("R-C13d", site, key, f"{what} is changed but no enclosing/following `finally` restores it", fi.qualname)
 
+    # the scoped idiom: `with jax.enable_x64(v)` (JAX's own context manager) - pairing by construction
+    for m in mods:
+        for fi in m.funcs.values():
+            for w in walk_no_nested(fi.node):
+                if isinstance(w, ast.With):
+                    for it in w.items:
+                        ce = it.context_expr
+                        if isinstance(ce, ast.Call) and _is_x64_scope_call(idx, m, fi, ce):
+                            res.ok("R-C13d", f"{m.rel}:{w.lineno}", f"{m.rel}::{fi.qualname}::x64-scope::with", "x64 is switched through JAX's scoped context manager, entered with `with`", fi.qualname)
+    # a manual save/update/restore of the x64 flag mixes a context-local read with a process-wide write (C09 R-C09a)
+    if not getattr(res, "_nested_xref", False):
+        from . import c09
+        sub = Results("C09", "quick")
+        setattr(sub, "_nested_xref", True)
+        c09.run(sub, idx, "quick")
+        for inst in sub.instances:
+            if inst.rule == "R-C09a" and ("global-write-context-read" in inst.key or "x64-scope" in inst.key):
+                res.add("R-C13d", inst.status, inst.site, f"R-C09a::{inst.key}", f"[C09 R-C09a] {inst.detail}", inst.func)
     rule_e(res, idx, mods)
     rule_f(res, idx, mods)
     _controls(res)
@@ -506,6 +524,29 @@ def _controls(res: Results) -> None:
     fired = any(i.status == "VIOLATION" and "before the restoring" in i.detail for i in tmp.instances) and any(i.status == "VIOLATION" and "restore-order" in i.key for i in tmp.instances)
     res.control("R-C13a", "loop of setattr before try + forward-order restore is flagged", fired)
     res.control("R-C13b", "module-level `jnp.foo = 1` resolves to a third-party namespace", any(host_root(m, n.targets[0].value) == "jax" for n in m.tree.body if isinstance(n, ast.Assign) and isinstance(n.targets[0], ast.Attribute)))
+
+
+def _is_x64_scope_call(idx: Index, m, fi, ce: ast.Call, depth: int = 0) -> bool:
+    """jax.enable_x64(...) / jax.experimental.enable_x64(...) or a package helper returning one."""
+    cn = call_name(ce) or ""
+    last = cn.split(".")[-1]
+    if last == "enable_x64" or last == "disable_x64":
+        return True
+    if depth < 2 and cn:
+        g = idx.resolve_func(m, cn, cls=fi.cls, scope=fi)
+        if g is not None:
+            for x in walk_no_nested(g.node):
+                if isinstance(x, ast.Return) and isinstance(x.value, ast.Call):
+                    f_ = x.value.func
+                    if isinstance(f_, ast.Name):
+                        du = defuse(g.node)
+                        if any("enable_x64" in ast.unparse(v) for v in du.values(f_.id) if v is not None) or any(isinstance(d.stmt, ast.ImportFrom) and any(a.name == "enable_x64" for a in d.stmt.names) for d in du.defs.get(f_.id, [])):
+                            return True
+                    if _is_x64_scope_call(idx, g.module, g, x.value, depth + 1):
+                        return True
+                if isinstance(x, ast.With) and any(isinstance(it.context_expr, ast.Call) and _is_x64_scope_call(idx, g.module, g, it.context_expr, depth + 1) for it in x.items):
+                    return True
+    return False
 
 
 # ---------------------------------------------------------------------------------------------- R-C13f
